@@ -17,6 +17,7 @@ class Plan:
     extra_rt: tuple = ()
     macro_profiles: tuple = ("dev",)  # which host profiles of the proc-macro to run G under
     accept_is_obligation: bool = False  # rule-valid but rejected => violation of this property
+    reject_is_obligation: bool = False  # rule-invalid but accepted => violation even if the expansion happens to be sound
     reject_expected_note: str = ""
     bounds: dict = dfield(default_factory=dict)
     assumptions: list = dfield(default_factory=list)
@@ -503,6 +504,23 @@ class Runner:
                 if plan.accept_is_obligation:
                     emit("rejected-valid-declaration", uid, "", u.meta.get("role", "") or "rule-valid-rejected", prof,
                          {"diagnostic": msgs[0][:3000], "detail": "a declaration that follows the documented rules does not compile"})
+        accepted_invalid = []
+        if plan.reject_is_obligation:
+            semantic = set((rec["unit"], rec["macro_profile"]) for (rec, _) in violations) | set((rec["unit"], rec["macro_profile"]) for (rec, _) in knowns)
+            for u in all_units:
+                if u.meta.get("valid") is not False:
+                    continue
+                for prof in plan.macro_profiles:
+                    if (u.uid, prof) in rejected_all or any(k.startswith(f"crate ") for k in []):
+                        continue
+                    if (u.uid, prof) in semantic:
+                        continue
+                    # the crate this unit was in must have been processed
+                    if not any(o.uid == u.uid and o.profile == prof for o in outcomes) and u.harnesses:
+                        continue
+                    accepted_invalid.append((u.uid, prof))
+                    emit("accepted-invalid-declaration", u.uid, "", u.meta.get("role", ""), prof,
+                         {"detail": "a declaration the documented rules call invalid compiles (its expansion passed the soundness spec, so this is the bare accept/reject obligation, decided by running the macro, not by the solver)"})
         wall = time.time() - self.t0
         # ---- evidence ------------------------------------------------------------------------------
         okos = [o for o in outcomes if o.verdict == "ok" and o.h.expect != "control"]
@@ -548,6 +566,7 @@ class Runner:
                 "acceptance_obligations": {"rule_valid_declarations": n_valid_decl, "accepted": n_valid_acc} if plan.accept_is_obligation else None,
                 "candidates_rule_invalid": {"generated": sum(1 for u in all_units if u.meta.get("valid") is False) * len(plan.macro_profiles), "rejected_by_macro": len(rejected_invalid),
                                             "accepted_and_put_through_soundness_spec": sum(1 for u in all_units if u.meta.get("valid") is False) * len(plan.macro_profiles) - len(rejected_invalid)},
+                "accepted_invalid_but_sound": len(accepted_invalid),
                 "programs": len(set((o.uid, o.profile) for o in outcomes)),
                 "exhaustive": bool(plan.exhaustive),
                 "technique": "bounded model checking (Kani 0.68 / CBMC 6.11, CaDiCaL) of the compiled macro expansion, symbolic inputs",
